@@ -273,6 +273,21 @@ class Ctx:
                 bad.append("%s: %s" % (f, m.group(0)))
         return bad
 
+    def _coqchk(self, pf):
+        """independent re-check of the compiled closure (coqchk) + its own axiom listing (thorough tier)"""
+        lib = "V." + pf[:-2].replace("/", ".")
+        cmdk = "timeout 1500 coqchk -silent -o -Q . V %s" % lib
+        self.checker_cmds.append("cd coq && " + cmdk)
+        rck, outk = sh("ulimit -s unlimited; " + cmdk, cwd=COQ, timeout=1560)
+        summary = " ".join(outk[outk.find("* Axioms"):].split())[:1500] if "* Axioms" in outk else outk[-400:]
+        self.trusted.append("coqchk -o %s: rc=%d %s" % (lib, rck, summary))
+        bad_modes = [k for k in ("type-in-type", "unsafe (co)fixpoints", "positivity is assumed")
+                     if re.search(re.escape(k) + r":\s*(?!<none>)\S", outk)]
+        if rck != 0 or bad_modes:
+            self.tie_broken("proof", "coqchk " + lib, outk[-1500:])
+            return False
+        return True
+
     def coq_build(self, props_files, timeout=900):
         """Build the .vo closure of the given files (relative to coq/, e.g. 'C40/Props.v').
         The listed files themselves are ALWAYS recompiled (so their theorems are
@@ -326,18 +341,9 @@ class Ctx:
                     okthis = False
                     self.tie_broken("proof", pf, "theorems without Print Assumptions: %s" % missing)
                 if okthis and self.thorough and os.environ.get("VERIF_NO_COQCHK") != "1":
-                    # independent re-check of the compiled closure (coqchk) + its own axiom listing
-                    lib = "V." + pf[:-2].replace("/", ".")
-                    cmdk = "timeout 1500 coqchk -silent -o -Q . V %s" % lib
-                    self.checker_cmds.append("cd coq && " + cmdk)
-                    rck, outk = sh("ulimit -s unlimited; " + cmdk, cwd=COQ, timeout=1560)
-                    summary = " ".join(outk[outk.find("* Axioms"):].split())[:1500] if "* Axioms" in outk else outk[-400:]
-                    self.trusted.append("coqchk -o %s: rc=%d %s" % (lib, rck, summary))
-                    bad_modes = [k for k in ("type-in-type", "unsafe (co)fixpoints", "positivity is assumed")
-                                 if re.search(re.escape(k) + r":\s*(?!<none>)\S", outk)]
-                    if rck != 0 or bad_modes:
-                        okthis = False
-                        self.tie_broken("proof", "coqchk " + lib, outk[-1500:])
+                    lock.close()                 # do not hold the build lock during the re-check
+                    okthis = self._coqchk(pf)
+                    lock = self._lock()
                 if okthis:
                     self.discharged += len(names)
                     self.theorems += names
